@@ -126,6 +126,42 @@ Definition graph_small (g : Graph.graph) : bool :=
   i32_ok (zlen (Graph.gr_consts g)) && i32_ok (zlen (Graph.gr_controls g)) && i32_ok (zlen (Graph.gr_units g))
   && forallb gunit_small (Graph.gr_units g).
 
+(* the structural part again split in two:
+   graph_order_ok -- every constant input is in the constant table and every unit input refers to a
+                     unit at a strictly smaller position (PROVED for every compiled program,
+                     proofs/C02_link.v, from C01's topological-sort theorem);
+   graph_local_ok -- facts local to one unit: class name, output index inside the referenced unit's
+                     outputs, control units inside the control array (decidable on g) *)
+Definition ginp_order (consts : list Q) (npos : Z) (i : Graph.ginp) : bool :=
+  match i with
+  | Graph.GK q => match const_index q consts with Some _ => true | None => false end
+  | Graph.GO idx _ => (0 <=? idx) && (idx <? npos)
+  end.
+Fixpoint gunits_order (consts : list Q) (npos : Z) (l : list Graph.gunit) : bool :=
+  match l with
+  | [] => true
+  | g :: r => forallb (ginp_order consts npos) (Graph.g_ins g) && gunits_order consts (npos + 1) r
+  end.
+Definition graph_order_ok (g : Graph.graph) : bool := gunits_order (Graph.gr_consts g) 0 (Graph.gr_units g).
+
+Definition ginp_chan (units : list Graph.gunit) (i : Graph.ginp) : bool :=
+  match i with
+  | Graph.GK _ => true
+  | Graph.GO idx ch => match nth_z units idx with
+                       | Some V => Z.of_nat ch <? Z.of_nat (Graph.g_nouts V)
+                       | None => true
+                       end
+  end.
+Definition gunit_local (nctl : Z) (units : list Graph.gunit) (g : Graph.gunit) : bool :=
+  let cls := bs_of_string (Graph.g_cls g) in
+  pstr_ok cls && negb (bytes_eqb cls [])
+  && forallb (ginp_chan units) (Graph.g_ins g)
+  && (if is_ctl_cls cls
+      then (0 <=? Graph.g_special g) && (Graph.g_special g + Z.of_nat (Graph.g_nouts g) <=? nctl)
+      else true).
+Definition graph_local_ok (g : Graph.graph) : bool :=
+  forallb (gunit_local (zlen (Graph.gr_controls g)) (Graph.gr_units g)) (Graph.gr_units g).
+
 (* what the caller has to guarantee about the name, the parameter-name table and the float words *)
 Definition names_ok (name : bytes) (pnames : list (bytes * Z)) (nctl : Z) : bool :=
   pstr_ok name && i32_ok (zlen pnames) && forallb pname_ok pnames && forallb (pname_wf nctl) pnames.
@@ -148,7 +184,7 @@ Definition bridge_check (cmp : Graph.prog -> Graph.res Graph.graph) (p : Graph.p
     match to_sdef (f32_of tab) name pnames g with
     | None => 2
     | Some d =>
-      if negb (graph_ok g) then 3 else
+      if negb (graph_ok g && graph_order_ok g && graph_local_ok g) then 3 else
       if negb (wf_def d) then 4 else
       if opt_eqb bytes_eqb (write_def d) (Some bs) then 0 else 5
     end
